@@ -13,6 +13,7 @@ package main
 
 import (
 	"bufio"
+	"bytes"
 	"encoding/hex"
 	"encoding/json"
 	"fmt"
@@ -92,6 +93,12 @@ func (o *Out) violation(prop, what string, detail map[string]string) {
 	o.Stats["harness_violations"]++
 }
 
+// current names the case about to be run; if the process dies, bin/check reports it as the failing input
+func (o *Out) current(detail map[string]string) {
+	b, _ := json.Marshal(detail)
+	os.WriteFile(filepath.Join(o.dir, "current.json"), b, 0o644)
+}
+
 func (o *Out) known(tag, example string) {
 	if _, ok := o.Known[tag]; !ok {
 		o.Known[tag] = example
@@ -108,6 +115,45 @@ func (o *Out) close() {
 	}
 	b, _ := json.MarshalIndent(st, "", " ")
 	os.WriteFile(filepath.Join(o.dir, "stats.json"), b, 0o644)
+}
+
+// mergeChild takes over what a child harness process wrote: its case lines, violations and counters
+func mergeChild(o *Out, dir string) {
+	if b, err := os.ReadFile(filepath.Join(dir, "cases.tsv")); err == nil {
+		o.w.Write(b)
+		o.Distinct += int64(bytes.Count(b, []byte("\n")))
+	}
+	b, err := os.ReadFile(filepath.Join(dir, "stats.json"))
+	if err != nil {
+		o.violation("harness", "child wrote no stats.json", map[string]string{"dir": dir})
+		return
+	}
+	var st struct {
+		Stats      map[string]int64
+		Notes      []string
+		Violations []map[string]string
+		Known      map[string]string
+	}
+	if err := json.Unmarshal(b, &st); err != nil {
+		o.violation("harness", "child stats.json unreadable", map[string]string{"dir": dir})
+		return
+	}
+	for k, v := range st.Stats {
+		o.Stats["child:"+k] += v
+	}
+	for _, n := range st.Notes {
+		o.Notes = append(o.Notes, "child: "+n)
+	}
+	for _, v := range st.Violations {
+		v["in_child"] = dir
+		if len(o.Viol) < 3000 {
+			o.Viol = append(o.Viol, v)
+		}
+		o.Stats["harness_violations"]++
+	}
+	for k, v := range st.Known {
+		o.known(k, v)
+	}
 }
 
 var props = map[string]func(o *Out){}
